@@ -72,7 +72,14 @@ fn body() -> Result<(), String> {
     anthem::main().map_err(|e| format!("{e:#}"))
 }
 
+/// Use the shipped binary instead of the linked library for reference emissions (E2-only mode:
+/// the linked library may be stale when the hooks-on build of the current tree failed).
+pub static REFERENCE_VIA_BINARY: std::sync::atomic::AtomicBool = std::sync::atomic::AtomicBool::new(false);
+
 pub fn prepare(case: &Case, scratch: &mut Scratch) -> Prepared {
+    if REFERENCE_VIA_BINARY.load(std::sync::atomic::Ordering::SeqCst) {
+        return prepare_via_binary(case, scratch);
+    }
     let in_dir = scratch.fresh_dir("in");
     for (name, content) in &case.files {
         let p = in_dir.join(name);
@@ -97,6 +104,33 @@ pub fn prepare(case: &Case, scratch: &mut Scratch) -> Prepared {
     let reference = read_dir_files(&out);
     let _ = fs::remove_dir_all(&out);
     Prepared { in_dir, reference, reference_stdout: r.sim.stdout, reference_status: r.status }
+}
+
+fn prepare_via_binary(case: &Case, scratch: &mut Scratch) -> Prepared {
+    let bins = crate::e2::Binaries::locate();
+    let in_dir = scratch.fresh_dir("in");
+    for (name, content) in &case.files {
+        let p = in_dir.join(name);
+        if let Some(parent) = p.parent() {
+            let _ = fs::create_dir_all(parent);
+        }
+        fs::write(p, content).expect("write input file");
+    }
+    let out = scratch.fresh_dir("ref");
+    let (argv, files) = base_argv(case, &in_dir);
+    let mut args: Vec<String> = argv[1..].to_vec();
+    args.push("--no-proof-search".into());
+    args.push("--save-problems".into());
+    args.push(out.to_string_lossy().into_owned());
+    args.extend(files);
+    let status = match crate::e2::run_anthem(&bins, &args, &in_dir, None, &crate::e2::Env::plain(), &[], 120) {
+        Ok(p) if p.code == Some(0) => ExecStatus::Returned,
+        Ok(p) => ExecStatus::MainErr(String::from_utf8_lossy(&p.stderr).into_owned()),
+        Err(e) => ExecStatus::MainErr(e.to_string()),
+    };
+    let reference = read_dir_files(&out);
+    let _ = fs::remove_dir_all(&out);
+    Prepared { in_dir, reference, reference_stdout: vec![], reference_status: status }
 }
 
 pub struct Run {
